@@ -2,8 +2,9 @@
 (* Exhaustive one-step check of SortAlgo.tla: from EVERY consistent bookkeeping state of every source of length  *)
 (* 0..MaxN over values with ties, every applicable input, EVERY result the relation allows.                     *)
 EXTENDS Integers, Sequences, FiniteSets, TLC, Json
-CONSTANTS MaxN
-Key(v) == v % 3                       \* values 1..5: keys 1,2,0,1,2 -> ties
+CONSTANTS MaxN,
+          KeyMode     \* "sort" (Ord: the value), "sort_by" (descending on v mod 4), "sort_by_key" (v mod 3): the harness's three flavours
+Key(v) == CASE KeyMode = "sort" -> v [] KeyMode = "sort_by" -> 3 - (v % 4) [] OTHER -> v % 3
 INSTANCE SortAlgo WITH SortKey <- Key
 
 VARIABLE x
@@ -38,4 +39,11 @@ AllStepsOK ==
         /\ IF d.k = "Truncate" THEN ViewOK(buf, s, d) <=> TruncateOK(buf, d.i)     \* D4, characterised exactly
            ELSE ViewOK(buf, s, d)
 ASSUME AllStepsOK
+
+(* cases for the conformance run (TraceSortAlgo): the real adapter's bookkeeping is not observable, but with distinct   *)
+(* source values its initial view determines it                                                                       *)
+PrintSortCases ==
+    \A s \in Srcs : \A d \in InputsFor(s) :
+        PrintT(<<"B", ToJson([kind |-> KeyMode, s |-> s, p |-> 0, d |-> d, new |-> -1, expect |-> <<>>])>>)
+ASSUME PrintSortCases
 =============================================================================
